@@ -143,6 +143,11 @@ impl Stack {
         self.stack[frame.rp as usize + index] = value;
     }
 
+    #[cfg(boa_verif)]
+    pub(crate) fn verif_len(&self) -> usize {
+        self.stack.len()
+    }
+
     /// Truncate the stack to the given frame.
     pub(crate) fn truncate_to_frame(&mut self, frame: &CallFrame) {
         self.stack.truncate(frame.frame_pointer());
